@@ -160,7 +160,13 @@ def classify(evolved, fresh, rebuilt, muts, stepwise=False):
                                                                  any(fk[0] == ix[0][0] for fk in f['fks'])) and any(
                     m['t'] == 'ChangeField' and any(a == 'db_index' and v == 'true' for a, v in m['attrs']) and
                     not any(a == 'db_column' for a, _ in m['attrs']) and
-                    (ix[0][0] in (m['field'], m['field'] + '_id') or ix[0][0].startswith(m['field'] + '_'))
+                    (ix[0][0] in (m['field'], m['field'] + '_id') or ix[0][0].startswith(m['field'] + '_')) and
+                    # the column keeps its name throughout the run (otherwise the stale bookkeeping after a
+                    # column rename, finding F18, explains the missing index - with or without a CHECK)
+                    not any(x is not m and x.get('model') == m['model'] and
+                            ((x['t'] == 'ChangeField' and x['field'] == m['field'] and
+                              any(a == 'db_column' for a, _ in x['attrs'])) or
+                             (x['t'] == 'RenameField' and m['field'] in (x['old'], x['new']))) for x in muts)
                     for m in muts):
                 out.append((F_CHECK_AS_INDEX, '%s: no index is created for %s: the scanned DatabaseState lists the column\'s '
                             'CHECK / FOREIGN KEY constraint as an index, so create_index() thinks one exists' % (t, ix[0])))
